@@ -334,10 +334,11 @@ def time_step(cfg):
     return DT if (cfg["rate"] != "none" or cfg["branches"] != "none") else 0.0
 
 
-def ps_tolerance(beh):
-    """documented plane-stress tolerance: max(_planeStress_tol * max(scale, 1), 10 * _tol * C_zz)"""
-    scale = SIGMA_Y if beh.layout.n and "eps_p" in [str(k) for k in beh.layout.slots] else 1.0
-    return max(beh._planeStress_tol * max(scale, 1.0), 10.0 * beh._tol * C6[2, 2])
+def ps_tolerance(cfg):
+    """documented plane-stress tolerance: max(planeStress_tol * max(scale, 1), 10 * tol * C_zz) with the documented
+    settings planeStress_tol = 1e-8 (relative to the yield scale) and tol = 1e-10"""
+    scale = SIGMA_Y if cfg["yield"] != "none" else 1.0
+    return max(1e-8 * max(scale, 1.0), 10.0 * 1e-10 * C6[2, 2])
 
 
 def fd_directions(cfg, full):
@@ -352,15 +353,6 @@ def fd_directions(cfg, full):
     if full:
         dirs += list(np.eye(n))
     return np.array(dirs)
-
-
-def _emb(cfg, v):
-    """model-dimension Kelvin vector -> 6D"""
-    if cfg["dim"] == "3D":
-        return v
-    out = np.zeros(v.shape[:-1] + (6,))
-    out[..., IDX2] = v
-    return out
 
 
 def check_level(cfg, lay, behs, eps, zold, names, depth, full_fd, stats, out):
@@ -422,7 +414,7 @@ def check_level(cfg, lay, behs, eps, zold, names, depth, full_fd, stats, out):
     for j in np.nonzero(err > TOL_SIG)[0][:1]:
         add("stress_state", gi[j], f"returned stress differs from C:(eps-eps_p)-sum g_i C:eps_v_i of the returned state by {err[j]:.3e}")
     if cfg["dim"] == "PlaneStress":
-        tps = ps_tolerance(beh)
+        tps = ps_tolerance(cfg)
         szz = np.abs(sig6[:, 2])
         stats["max_szz_over_tol"] = max(stats["max_szz_over_tol"], float(szz.max() / tps))
         for j in np.nonzero(szz > tps)[0][:1]:
@@ -533,12 +525,12 @@ def check_level(cfg, lay, behs, eps, zold, names, depth, full_fd, stats, out):
     psig = psig.reshape(G, m, 4, n)
     pgood = (pok & ~praised).reshape(G, m, 4).all(axis=2) & (tok & ~traised)[:, None]
     s0 = tsig[:, None, :]
-    # default and tightened tolerances describe the same step
+    # guard: the twin must describe the same step as the default settings (else its derivative is not a reference)
     tsc = np.maximum(np.max(np.abs(sg), axis=1), SIGMA_Y)
-    et = np.where(tok & ~traised, np.max(np.abs(tsig - sg), axis=1) / tsc, 0.0)
-    tol_t = 1e-7 + (10 * ps_tolerance(beh) / SIGMA_Y if cfg["dim"] == "PlaneStress" else 0.0)
-    for j in np.nonzero(et > tol_t)[0][:1]:
-        add("tolerance_sensitivity", gi[j], f"stress with default local tolerances differs from the stress with tightened tolerances by rel {et[j]:.2e}")
+    et = np.max(np.abs(tsig - sg), axis=1) / tsc
+    tol_t = 1e-7 + (10 * ps_tolerance(cfg) / SIGMA_Y if cfg["dim"] == "PlaneStress" else 0.0)
+    pgood &= (et <= tol_t)[:, None]
+    stats["twin_differs"] += int((et > tol_t).sum())
     D1 = (psig[:, :, 0] - psig[:, :, 1]) / (2 * h)
     D2 = (psig[:, :, 2] - psig[:, :, 3]) / h
     # one-sided derivatives, extrapolated to first order (2 F(h/2) - F(h)): they differ by exactly the jump of a kink
@@ -582,7 +574,7 @@ def check_level(cfg, lay, behs, eps, zold, names, depth, full_fd, stats, out):
 
 def new_stats():
     return {k: 0 for k in ("calls", "points", "transitions", "raised", "nonconverged", "flowed", "relaxed", "solver_pairs",
-                           "fd_checked", "fd_checked_plastic", "fd_skipped", "max_szz_over_tol", "states", "newton_nonconverged")}
+                           "fd_checked", "fd_checked_plastic", "fd_skipped", "max_szz_over_tol", "states", "newton_nonconverged", "twin_differs")}
 
 
 def run_material(case):
@@ -601,8 +593,7 @@ def run_material(case):
     stats = new_stats()
     f_eps, f_z, f_names = np.zeros((1, n)), np.zeros((1, lay.n)), [[]]
     first = case.get("first")
-    all_fps = set()
-    obs = []
+    n_states, obs = 0, []
     for d in range(1, depth + 1):
         if d == 1 and first is not None:
             Ls, ln = L[first:first + 1], lnames[first:first + 1]
@@ -612,24 +603,20 @@ def run_material(case):
         zold = np.repeat(f_z, len(Ls), axis=0)
         names = [p + [x] for p in f_names for x in ln]
         sig, z, good = check_level(cfg, lay, behs, eps, zold, names, d, d <= full_depth, stats, out)
-        seen = {}
-        for i in np.nonzero(good)[0]:
-            k = fp(eps[i], z[i], sig[i])
-            if k not in seen:
-                seen[k] = i
-        all_fps.update(seen)
-        keep = np.array(sorted(seen.values()), dtype=int)
-        obs.append(fp(sorted(seen)))
+        gidx = np.nonzero(good)[0]
+        if len(gidx) == 0:
+            break
+        # fingerprints = observables rounded on their natural scales (strain-like: eps_y, stress: sigma_y)
+        rows = np.round(np.hstack([eps[gidx] / EPS_Y, z[gidx] / EPS_Y, sig[gidx] / SIGMA_Y]), 7) + 0.0
+        uniq = np.unique(rows, axis=0)
+        n_states += len(uniq)
+        obs.append(fp(uniq, digits=7))
         if d < depth:
             # merged states: same total strain and same internal variables (hence the same futures)
-            ms = {}
-            for i in keep:
-                ms.setdefault(fp(eps[i], z[i]) if lay.n else fp(eps[i]), i)
-            keep = np.array(sorted(ms.values()), dtype=int)
+            _, first_idx = np.unique(rows[:, : n + lay.n], axis=0, return_index=True)
+            keep = gidx[np.sort(first_idx)]
             f_eps, f_z, f_names = eps[keep], z[keep], [names[i] for i in keep]
-            if len(keep) == 0:
-                break
-    stats["states"] = len(all_fps)
+    stats["states"] = n_states
     flags = []
     if stats["nonconverged"] or stats["raised"]:
         flags.append("nonconverged-steps")
@@ -638,7 +625,7 @@ def run_material(case):
     nontrivial = (stats["flowed"] + stats["relaxed"] > 0) if lay.n else True
     return {"violations": _dedupe(out), "fingerprint": fp(cfg, depth, first, obs), "nontrivial": nontrivial,
             "outcome": ("violation" if out else "ok") + ("(" + ",".join(flags) + ")" if flags else ""),
-            "transitions": stats["transitions"], "states": len(all_fps), "stats": stats}
+            "transitions": stats["transitions"], "states": n_states, "stats": stats}
 
 
 def _dedupe(v, cap=8):
@@ -774,7 +761,7 @@ def run_simulation(case):
 
     def add(check, i, msg):
         if len(out) < 12:
-            out.append(viol(check, f"{msg} [after op {i + 1} of {'>'.join(seq)}]", **key))
+            out.append(viol(check, f"{msg} [after op {i + 1} of {'>'.join(seq)}]", **dict(key, op=seq[i])))
 
     def zeros_like_group(et):
         for (Ne, nPg), name in shape_of.items():
@@ -805,14 +792,14 @@ def run_simulation(case):
         if op in ("A", "B", "R"):
             if not calls:
                 add("solve_without_integration", i, "Solve did not call Behavior.Integrate")
-            for c in calls:
+            for ic, c in enumerate(calls):
                 want = committed.get(c["et"])
                 want = zeros_like_group(c["et"]) if want is None else want
                 got = zeros_like_group(c["et"]) if c["zin"] is None else c["zin"]
                 if got.shape != want.shape or got.tobytes() != want.tobytes():
                     d = float(np.max(np.abs(got - want))) if got.shape == want.shape else float("inf")
                     add("committed_changed_by_solve", i, f"Integrate received a zOld that is not the committed state ({c['et']}, max diff {d:.3e}, "
-                        f"call {calls.index(c) + 1} of {len(calls)})")
+                        f"call {ic + 1} of {len(calls)})")
                     break
             if any(c["mutated"] for c in calls):
                 add("zold_mutated", i, "the committed-state array handed to Integrate was modified during the call")
@@ -922,7 +909,13 @@ def cases(tier, seed):
 
 
 def run_case(case):
-    return run_material(case) if case["kind"] == "mat" else run_simulation(case)
+    import warnings
+
+    with warnings.catch_warnings(), np.errstate(all="ignore"):
+        # RuntimeWarnings of the implementation's own iterations (0/0 residual ratio of a zero load, power of a
+        # negative trial value) are not observables of the property
+        warnings.simplefilter("ignore", RuntimeWarning)
+        return run_material(case) if case["kind"] == "mat" else run_simulation(case)
 
 
 def describe(tier, seed):
